@@ -12,6 +12,7 @@ from vmc.core import scratch
 from vmc.seams import sched
 
 ID = "C09"
+TECHNIQUE = 'bounded exhaustive enumeration of all target-resolution subsets against a reference model + deviation-bounded schedule exploration through the Pool seam, on the real implementation'
 LEVEL = "model_checking"
 RULE = ("api leg: base cooler of resolution 1 (8+4 bp genome) x ALL 2^7 subsets of target resolutions {1,2,3,4,6,8,12}; base of "
         "resolution 2 x all 2^5 subsets of {2,3,4,6,12} (3 is not derivable: must raise); base sets {1,2}, {2,3}, {1,2,3} given as "
